@@ -234,7 +234,7 @@ PROPS['C09'] = dict(
     level_text=('Bounded contract check (Kani/CBMC) on the real crate. v1: ChordsGroup::{get_chord, get_chord_if_unambiguous, get_keys} over symbolic 128-bit key '
                 'sets and tables of <= 3 chords (exact-set match; unambiguous iff no strict superset is defined). v2: get_active_chord (release rule), '
                 'drain_releases (participant release bookkeeping, non-participants change nothing, releases forwarded iff no press pending), '
-                'clear_released_chords (one virtual-coordinate release per released chord), get_action_chv2 (each chord handed out once), next_coord in 851..=900 (complete).'),
+                'get_action_chv2 (each chord handed out once), next_coord in 851..=900 (complete).'),
     level_note='Trusted: rustc, Kani + CBMC. Not decided: WaitingState::handle_chord accumulation and decomposition, ChordsV2::process_presses (reads an FxHashMap), the re-issue of the v1 action on every participant in waiting_into_tap.',
     technique='contract harnesses (Kani/CBMC): symbolic tables / queues within stated bounds, set-theoretic oracles from the statement',
     design_ref='DESIGN.md section 4, C09',
@@ -248,11 +248,12 @@ PROPS['C09'] = dict(
         H('keyberon', 'chord', 'c09_k_next_coord', kind='complete', functions=[CH + 'ChordsV2::next_coord']),
         H('keyberon', 'chord', 'c09_b_get_active_chord', kind='bounded', bound='<= 3 participants', functions=[CH + 'get_active_chord']),
         H('keyberon', 'chord', 'c09_b_get_action_once', kind='bounded', bound='<= 3 active chords', functions=[CH + 'ChordsV2::get_action_chv2']),
-        H('keyberon', 'chord', 'c09_b_drain_releases', kind='bounded', bound='queue <= 3 events over 4 keys, 1 active chord of 2 keys', functions=[CH + 'ChordsV2::drain_releases']),
-        H('keyberon', 'chord', 'c09_b_clear_released', kind='bounded', bound='<= 3 active chords', functions=[CH + 'ChordsV2::clear_released_chords']),
+        H('keyberon', 'chord', 'c09_b_drain_releases', kind='bounded', bound='1 symbolic queued event over 4 keys; 1 active chord of 2 keys awaiting 1 key; symbolic status', functions=[CH + 'ChordsV2::drain_releases']),
+        H('keyberon', 'chord', 'c09_b_drain_releases_behind_press', kind='bounded', bound='same, behind a pending press of an unrelated key'),
         H('keyberon', 'chord', 'c09_b_drain_releases_neg', kind='bounded', expect='fail', covers='must-fail twin'),
     ],
-    assumptions=['handle_chord (v1 accumulation / abort reasons / PressedQueue), decompose_chord_into_action_queue and ChordsV2::process_presses are NOT under contract',
+    assumptions=['handle_chord (v1 accumulation / abort reasons / PressedQueue), decompose_chord_into_action_queue, ChordsV2::process_presses and clear_released_chords are NOT under contract (harnesses for handle_chord and clear_released_chords were built and exhausted 39 GB / 10-15 min without a result)',
+                 'drain_releases is checked for ONE active chord only: a defect that needs two chords active at once is not detected',
                  'parser guarantee used as precondition: chord key sets within a group are unique'],
     trusted_base=['rustc', 'Kani 0.68.0 / CBMC 6.11.0 / CaDiCaL'],
 )
